@@ -59,7 +59,13 @@ class Rng:
     M = (1 << 64) - 1
 
     def __init__(self, seed):
-        self.s = (int(seed) * 0x9E3779B97F4A7C15 + 0x1234567) & self.M
+        # the seed is hashed, not used as a stream offset: adjacent seeds must give unrelated streams
+        z = (int(seed) ^ 0x5851F42D4C957F2D) & self.M
+        for _ in range(3):
+            z = ((z ^ (z >> 30)) * 0xBF58476D1CE4E5B9) & self.M
+            z = ((z ^ (z >> 27)) * 0x94D049BB133111EB) & self.M
+            z ^= z >> 31
+        self.s = z
 
     def u64(self):
         self.s = (self.s + 0x9E3779B97F4A7C15) & self.M
@@ -139,7 +145,7 @@ CMAKE_ARGS = ["-DCMAKE_BUILD_TYPE=RelWithDebInfo",
 
 def ensure_parsec(targets=("parsec", "parsec-ptgpp"), build=PBUILD, extra_cmake=()):
     """incremental build of libparsec (+ ptgpp) from /repo as it is now."""
-    with Lock("pbuild-" + os.path.basename(build)):
+    with Lock("pbuild-" + hashlib.sha1(os.path.abspath(build).encode()).hexdigest()[:10]):
         if not os.path.exists(os.path.join(build, "build.ninja")):
             os.makedirs(build, exist_ok=True)
             rc, out, err = run(["cmake", "-G", "Ninja", "-S", REPO, "-B", build] + CMAKE_ARGS
@@ -740,13 +746,17 @@ class Check:
             with open(path, "w") as f:
                 f.write("# property %s is no longer shown to hold; no failing input was found\n" % self.id)
                 for b in broken:
-                    f.write("## %s: %s\n%s\n" % (b.kind, b.what, b.detail))
+                    f.write("## %s: %s\n" % (b.kind, b.what))
+                    for dl in b.detail.splitlines():
+                        f.write("# " + dl + "\n")
             violations.append("VIOLATION property=%s replay=%s no-failing-input-found" % (self.id, path))
         elif broken and violations:
             path = violations[0].split("replay=")[1]
             with open(path, "a") as f:
                 for b in broken:
-                    f.write("## also broken — %s: %s\n%s\n" % (b.kind, b.what, b.detail))
+                    f.write("## also broken — %s: %s\n" % (b.kind, b.what))
+                    for dl in b.detail.splitlines():
+                        f.write("# " + dl + "\n")
         for b in broken:
             log("%s: BROKEN %s: %s\n%s" % (self.id, b.kind, b.what, b.detail[:1500]))
         self.write_evidence(len(violations))
